@@ -183,6 +183,32 @@ def mon_c04(run, case, stmts):
 
 def mon_c07(run, case, stmts):
     for inv in run.invocations:
+        if inv.get("outcome") == "step_cap" and inv.get("steps_since_time_moved", 0) > 0.6 * inv.get("step_cap", 10**9):
+            # not a budget problem: the invocation executed hundreds of thousands of scheduling steps without any task
+            # ever waiting for time to pass - it spins without blocking
+            run.v("C07", "invocation_spins_without_blocking", "step_cap",
+                  f"invocation {inv['inv']}: {inv.get('steps_since_time_moved')} scheduling steps at one virtual instant (cap {inv.get('step_cap')}); tasks {inv.get('deadlock_info')}")
+    # a branch parked on an external party only (no timer) is not run again inside the same invocation
+    last_park: dict = {}
+    for o in run.obs:
+        if o["out"] == "suspend" and o["kind"] in ("callback_result", "wait_for_callback", "invoke"):
+            s_ = stmts.get(o["path"].split("#")[0]) or {}
+            if not (s_.get("timeout") or s_.get("heartbeat")):  # nothing but the external party can wake it
+                last_park.setdefault((o["inv"], parent_path(o["path"])), o)  # the first time it parked there
+    seen_entry: dict = {}
+    for e in run.entries:
+        if e["kind"] != "branch":
+            continue
+        k = (e["inv"], e["path"])
+        if k in seen_entry and k in last_park and last_park[k]["clk"] < e["clk"]:
+            o = last_park[k]
+            op = run.backend.ops.get(run.backend.by_path.get(o["path"].split("#")[0], ""), {})
+            if op.get("Status") == "STARTED":
+                run.v("C07", "parked_branch_rerun_without_wake_source", o["kind"],
+                      f"{e['path']}: branch body entered again in invocation {e['inv']} although it had parked on {o['path']} ({o['kind']}, no timer) and the backend still holds that operation as STARTED")
+                break
+        seen_entry[k] = e
+    for inv in run.invocations:
         if inv.get("outcome") in ("deadlock", "time_cap"):
             run.v("C07", "invocation_never_returns", inv["outcome"],
                   f"invocation {inv['inv']} ended in {inv['outcome']}: blocked tasks {inv.get('deadlock_info')}")
